@@ -12,6 +12,7 @@
    proportional to the input — a 5-byte input can reserve MAX_VEC_SIZE bytes — it is bounded by that constant plus a linear term. *)
 From Coq Require Import List Arith NArith ZArith Bool.
 From Coq.Strings Require Import Byte.
+From EV Require Gen.SrcScript Proofs.SrcScript.
 From EV Require Import Base.Bytes Base.Codec Gen.Tables Model.Script Model.Taproot Model.Bech32 Model.Tx Model.Block Model.Alloc Model.Totality
   Proofs.Script Proofs.ScriptTemplates Proofs.Taproot Proofs.Alloc Proofs.Totality.
 Import ListNotations.
@@ -90,6 +91,16 @@ Theorem C10_total_templates : forall s,
   is_v1_p2tr_p s = Val (is_v1_p2tr s) /\ is_v1plus_p2witprog_p s = Val (is_v1plus_p2witprog s) /\ is_op_return_p s = Val (is_op_return s).
 Proof. intros s. repeat split; [apply is_p2sh_p_eq|apply is_p2pkh_p_eq|apply is_p2pk_p_eq|apply is_witness_program_p_eq|apply is_v0_p2wsh_p_eq
   |apply is_v0_p2wpkh_p_eq|apply is_v1_p2tr_p_eq|apply is_v1plus_p2witprog_p_eq|apply is_op_return_p_eq]. Qed.
+(* the same from the source text: the no-panic conditions GENERATED by the translator from the bodies of the template predicates in src/script.rs
+   (every `self.0[i]` within bounds, `self.0.len() - 2` not below zero, with && / || short-circuiting left to right) hold for every script *)
+Theorem C10_templates_no_panic_from_source : forall s : bytes,
+  SrcScript.src_Script_is_p2sh_safe s = true /\ SrcScript.src_Script_is_p2pkh_safe s = true /\ SrcScript.src_Script_is_p2pk_safe s = true
+  /\ SrcScript.src_Script_is_witness_program_safe s = true /\ SrcScript.src_Script_is_v0_p2wsh_safe s = true /\ SrcScript.src_Script_is_v1_p2tr_safe s = true
+  /\ SrcScript.src_Script_is_v1plus_p2witprog_safe s = true /\ SrcScript.src_Script_is_v0_p2wpkh_safe s = true /\ SrcScript.src_Script_is_op_return_safe s = true
+  /\ SrcScript.src_Script_is_provably_unspendable_safe s = true.
+Proof. intros s. repeat split; auto using SrcScript.src_is_p2sh_safe, SrcScript.src_is_p2pkh_safe, SrcScript.src_is_p2pk_safe, SrcScript.src_is_witness_program_safe,
+  SrcScript.src_is_v0_p2wsh_safe, SrcScript.src_is_v1_p2tr_safe, SrcScript.src_is_v1plus_p2witprog_safe, SrcScript.src_is_v0_p2wpkh_safe,
+  SrcScript.src_is_op_return_safe, SrcScript.src_is_provably_unspendable_safe. Qed.
 (* Address::from_script (imported, C16) *)
 Theorem C10_total_from_script : forall s : bytes, exists r, from_script s = Script.Val r.
 Proof. exact from_script_total. Qed.
